@@ -26,16 +26,19 @@ ASSUMPTIONS = [
     'num_real_particles of the LOADED array is outside the statement: the hdf5 reader never calls align_particles, so '
     'with only_real=False it counts ghosts as real (reported, compared as incidental detail only)',
 ]
-READY = False
+READY = True
 DESIGN_REF = '6/C11'
 TECHNIQUE = 'Lean 4 proof over a hand-written model (abstract file) + correspondence check on real dump/load'
 LEVEL_TEXT = ("Lean 4 theorems over every well-formed particle array, every option combination and both formats "
-              "about a hand-written model that transcribes the writers, the readers and the ParticleArray "
+              "(readers_rebuild_in_any_order, hdf5_roundtrip, npz_roundtrip, roundtrip_meta_{hdf5,npz}, "
+              "roundtrip_values_{hdf5,npz}, empty_array_roundtrip_{hdf5,npz}, compress_irrelevant, "
+              "solver_data_roundtrip) about a hand-written model that transcribes the writers, the readers and the ParticleArray "
               "construction they drive; the model is tied to the code on every run by executing load(dump(...)) on "
               "real npz/hdf5/v1 files against the scratch build of /repo and comparing every property's type, stride, "
               "default and values, constants, output list and solver data; the property's own predicate is evaluated "
               "on the implementation to produce replays.")
 LEVEL_NOTE = ("Partial: the file is an abstract nested dictionary, so numpy/pickle/h5py encodings (incl. compression) "
-              "are trusted containers checked only by the tie; values are opaque. Trusted: Lean kernel, the "
+              "are trusted containers checked only by the tie; values are opaque; the array-level theorems are stated for a "
+              "file holding one array (several arrays and the version-1 reader are covered by the tie only). Trusted: Lean kernel, the "
               "hand-written model (700+ cases quick), the stated well-formedness of source arrays.")
 TIMEOUT = {'quick': 900, 'thorough': 3600}
